@@ -412,9 +412,19 @@ func (s *Sim) checkShadow(m *txMeta, p *Pkt, in *PktInfo, mo *MsgObs, ack AckInf
 	if model == nil {
 		model = s.Model
 	}
-	for _, v := range sh.V {
+	for _, name := range sortedKeys(sh.V) {
+		v := sh.V[name]
 		if v.SetupErr != "" {
-			panic(harnessErr("shadow %s set-up failed for packet op=%d: %s", v.Name, p.Origin, v.SetupErr))
+			// the set-up applies, on a branch of the committed state, an authority message that the model says is
+			// valid right now (pause what is not paused, unpause what is paused, raise the limit): a refusal means the
+			// chain's answer does not follow from its committed state (e.g. state kept outside the store)
+			prop := map[string]string{"actionflip": "C09", "unpaused": "C08", "extrapause": "C08", "limitup": "C18"}[v.Name]
+			if prop == "" {
+				panic(harnessErr("shadow %s set-up failed for packet op=%d: %s", v.Name, p.Origin, v.SetupErr))
+			}
+			s.violate(prop, "message-semantics", "valid-authority-message-refused-on-branch variant="+v.Name, fmt.Sprintf("before packet op=%d: on a branch of the committed state a message the model holds valid was refused: %.300s", p.Origin, v.SetupErr))
+			delete(sh.V, name)
+			continue
 		}
 		if v.Panic != "" {
 			s.violate("C14", "U1-no-panic", "shadow: "+oneLine(v.Panic), fmt.Sprintf("packet op=%d panicked in shadow variant %s: %.300s", p.Origin, v.Name, v.Panic))
@@ -422,7 +432,7 @@ func (s *Sim) checkShadow(m *txMeta, p *Pkt, in *PktInfo, mo *MsgObs, ack AckInf
 	}
 	orbS, dustS := s.Env.Orbiter.String(), s.Env.Dust.String()
 	// harness self-check: the real delivery of a packet that was alone and first in its block agrees with its shadow
-	if m.soleInBlock && !m.GasCut && base.Panic == "" && string(base.Ack) != string(ack.Bytes) {
+	if m.soleInBlock && !m.GasCut && base.Panic == "" && string(base.Ack) != string(ack.Bytes) && len(s.Viol) == 0 {
 		panic(harnessErr("real delivery and base shadow disagree for packet op=%d:\n real:   %s\n shadow: %s", p.Origin, ack.Bytes, base.Ack))
 	}
 	// ---- C07: not addressed to the orbiter => exactly the wrapped application
